@@ -30,6 +30,19 @@ func corpus(r *h.Run) {
 		}}
 		runSeq(r, sc, false)
 	}
+	// a version RECURS (A B A, A B B A, A A) after a Store during which the side file could not be rewritten (ignored by
+	// design): the last successful Store decides what a Fetch returns
+	for _, kind := range []string{"mutable", "immutable"} {
+		hf := &faultSpec{Kind: "errpath", Path: ".hash"}
+		for _, hist := range [][]opSpec{
+			{{Op: "store", Ver: 0}, {Op: "store", Ver: 1, Fault: hf}, {Op: "store", Ver: 0}, {Op: "fetch"}},
+			{{Op: "store", Ver: 0}, {Op: "store", Ver: 1, Fault: hf}, {Op: "store", Ver: 1}, {Op: "fetch"}, {Op: "store", Ver: 0}, {Op: "fetch"}},
+			{{Op: "store", Ver: 1, Fault: hf}, {Op: "store", Ver: 1}, {Op: "fetch"}, {Op: "store", Ver: 0, Fault: hf}, {Op: "store", Ver: 1}, {Op: "fetch"}},
+			{{Op: "store", Ver: 0}, {Op: "store", Ver: 1}, {Op: "store", Ver: 2, Fault: hf}, {Op: "store", Ver: 1}, {Op: "fetch"}, {Op: "store", Ver: 0}, {Op: "fetch"}},
+		} {
+			runSeq(r, seqScenario{Type: "seq", Kind: kind, Env: envSpec{Ignore: defaultIgnore}, Versions: specsFor(9, 3, 1), Ops: hist}, false)
+		}
+	}
 	// fault-free life cycle in every environment: remote path / key containing ".part", FilesystemItemsToIgnore set, dirty
 	// destinations, versions with and without files that match the ignore list
 	for _, kind := range []string{"mutable", "immutable"} {
@@ -43,8 +56,10 @@ func corpus(r *h.Run) {
 	runGated(r, d15Witness())
 }
 
-func seqTail(next int) []opSpec {
-	return []opSpec{{Op: "fetch"}, {Op: "clean"}, {Op: "fetch"}, {Op: "store", Ver: next}, {Op: "fetch"}, {Op: "clean"}, {Op: "fetch"}}
+// seqTail: what follows the call that carried the fault (the immediate recurrence of an earlier version is a separate
+// scenario, run when the faulted Store reported success: see below).
+func seqTail(target string, cur int) []opSpec {
+	return []opSpec{{Op: "fetch"}, {Op: "clean"}, {Op: "fetch"}, {Op: "store", Ver: cur + 1}, {Op: "fetch"}, {Op: "clean"}, {Op: "fetch"}}
 }
 
 func sweepSeq(r *h.Run) {
@@ -95,10 +110,23 @@ func sweepSeq(r *h.Run) {
 						}
 						f := &faultSpec{K: k, Kind: fk}
 						ops := append(append([]opSpec{}, hist...), opSpec{Op: target, Ver: nh, Fault: f})
-						ops = append(ops, seqTail(nh+1)...)
+						ops = append(ops, seqTail(target, nh)...)
 						sc := seqScenario{Type: "seq", Kind: kind, Env: env, Versions: specs, Ops: ops}
 						o := runSeq(r, sc, true)
 						r.Distinct(fmt.Sprintf("%s|%d|%s|%s|%s|%s", kind, nh, target, tr.Name, pathClass(tr.Path), fk))
+						if target == "store" && remote && len(o) > nh && o[nh].Res == "ok" {
+							// the failure was IGNORED (the Store reported success): whatever it left behind (a stale or missing side
+							// file, ...) must not mislead the NEXT Stores either — a version recurs immediately (A B A / A A, byte-identical
+							// package), with no Fetch in between that could repair the entry, then the faulted version again
+							recur := nh - 1
+							if recur < 0 {
+								recur = nh
+							}
+							ops2 := append(append([]opSpec{}, hist...), opSpec{Op: target, Ver: nh, Fault: f},
+								opSpec{Op: "store", Ver: recur}, opSpec{Op: "fetch"}, opSpec{Op: "store", Ver: nh}, opSpec{Op: "fetch"})
+							runSeq(r, seqScenario{Type: "seq", Kind: kind, Env: env, Versions: specs, Ops: ops2}, true)
+							r.Count("recurring-version-after-ignored-failure:" + kind)
+						}
 						if k%17 == 0 && len(o) > nh+5 {
 							r.Sample(map[string]any{"kind": kind, "history": nh, "target": target, "k": k, "op": tr.Name, "path": pathClass(tr.Path), "fault": fk,
 								"result": o[nh].Res, "then": []string{o[nh+1].Res, o[nh+3].Res, o[nh+5].Res}})
@@ -108,7 +136,7 @@ func sweepSeq(r *h.Run) {
 				if kind == "mutable" {
 					// the acquisition itself fails
 					ops := append(append([]opSpec{}, hist...), opSpec{Op: target, Ver: nh, Fault: &faultSpec{LockOp: "Mkdir"}})
-					ops = append(ops, seqTail(nh+1)...)
+					ops = append(ops, seqTail(target, nh)...)
 					runSeq(r, seqScenario{Type: "seq", Kind: kind, Env: env, Versions: specs, Ops: ops}, false)
 				}
 			}
